@@ -1,5 +1,39 @@
-use serde_json::Value;
+use crate::ops::b;
+use crate::ops6::seed_of;
+use serde_json::{json, Value};
+use text_utils::data::loading::{BatchLimitType, BatchedIterator, ItemSize};
 
-pub fn dispatch(op: &str, _req: &Value) -> Result<Value, String> {
-    Err(format!("unknown op {op}"))
+struct It {
+    size: usize,
+    id: usize,
+}
+
+impl ItemSize for It {
+    fn size(&self) -> usize {
+        self.size
+    }
+}
+
+fn big(req: &Value, k: &str) -> Result<usize, String> {
+    req.get(k).and_then(|v| v.as_str()).ok_or(format!("missing {k}"))?.parse::<usize>().map_err(|e| e.to_string())
+}
+
+pub fn dispatch(op: &str, req: &Value) -> Result<Value, String> {
+    match op {
+        "batched" => {
+            let sizes: Vec<usize> = req.get("sizes").and_then(|v| v.as_array()).ok_or("missing sizes")?
+                .iter().map(|x| x.as_str().unwrap().parse::<usize>().unwrap()).collect();
+            let n = sizes.len();
+            let items: Vec<It> = sizes.into_iter().enumerate().map(|(id, size)| It { size, id }).collect();
+            let lt = match req.get("limit_type").and_then(|v| v.as_str()).ok_or("missing limit_type")? {
+                "BatchSize" => BatchLimitType::BatchSize,
+                _ => BatchLimitType::PaddedItemSize,
+            };
+            let it = items.into_iter().batched(b(req, "sort")?, b(req, "shuffle")?, big(req, "prefetch")?,
+                big(req, "limit")?, lt, seed_of(req)?);
+            let out: Vec<Vec<usize>> = it.take(n + 3).map(|bt| bt.iter().map(|i| i.id).collect()).collect();
+            Ok(json!(out))
+        }
+        _ => crate::ops8::dispatch(op, req),
+    }
 }
